@@ -121,3 +121,19 @@ package objectcore
 //@   opt abstract=copycontent
 //@   valid len(MetaAttributeDelimiter) == 1
 //@   ensures [id_position_is_the_last_32_bytes] err == nil && len(res0) > 32 ==> off == len(res0) - 32 || off + 33 == len(res0) - 32
+
+// Attributes whose values are identifiers (owner, first split object, parent, associated
+// object) are indexed by their raw bytes and shown in Base58: the cursor must carry the decoded
+// bytes, and merged results must be ordered by the decoded bytes, never by the Base58 text.
+//@ ghost pred idValueDecoded() bool
+//@ callrule c04_cursor_decodes_identifier_values in CalculateCursor
+//@   callee base58.Decode
+//@   pureeffect
+//@   defines err == nil ==> idValueDecoded()
+//@ func CalculateCursor
+//@   ensures [identifier_values_are_decoded] err == nil && len(res0) > 32 && (attr == object.FilterOwnerID || attr == object.FilterFirstSplitObject || attr == object.FilterParentID || attr == object.AttributeAssociatedObject) ==> idValueDecoded()
+
+//@ callrule c04_merge_orders_identifier_values_by_bytes in MergeSearchResults
+//@   callee strings.Compare
+//@   pureeffect
+//@   requires [text_order_only_for_plain_attributes] firstAttr != object.FilterOwnerID && firstAttr != object.FilterFirstSplitObject && firstAttr != object.FilterParentID && firstAttr != object.AttributeAssociatedObject
